@@ -649,4 +649,62 @@ theorem emit_dDoc (env : Env) (name : Str) (pos : Nat → Nat → Nat × Nat) (f
     emit env (dDoc name pos fields nodes trailing) = some (dDocText name fields nodes trailing) :=
   emit_doc_matches env name fields nodes trailing _ (forestNodes_matches pos nodes _ 0) hfe h htr
 
+
+/-! ### every hypothesis is decidable -/
+
+instance decFScalarOK (v : FScalar) : Decidable v.OK := by
+  cases v <;> (simp only [FScalar.OK]; exact inferInstance)
+
+instance decFLineOK (ln : FLine) : Decidable ln.OK := by unfold FLine.OK; exact inferInstance
+
+instance decSecIdOK (id : SecId) : Decidable id.OK := by
+  cases id <;> (simp only [SecId.OK]; exact inferInstance)
+
+instance decFLineEmitOK (ln : FLine) : Decidable ln.EmitOK := by
+  obtain ⟨key, v⟩ := ln
+  cases v <;> (simp only [FLine.EmitOK]; exact inferInstance)
+
+instance decLineEmitOK (env : Env) (ln : FLine) (lead : List Str) (trail : Option Str) :
+    Decidable (CNode.LineEmitOK env ln lead trail) := by unfold CNode.LineEmitOK; exact inferInstance
+
+mutual
+def DNode.decOK (env : Env) : (n : DNode) → Decidable (n.OK env)
+  | .line ln lead trail => by simp only [DNode.OK]; exact inferInstance
+  | .block key cs lead => by
+    have := forestDecOK env cs
+    simp only [DNode.OK]; exact inferInstance
+  | .sect id key cs lead => by
+    have := forestDecOK env cs
+    simp only [DNode.OK]; exact inferInstance
+def forestDecOK (env : Env) : (ns : List DNode) → Decidable (forestOK env ns)
+  | [] => by simp only [forestOK]; exact inferInstance
+  | n :: ns => by
+    have := DNode.decOK env n
+    have := forestDecOK env ns
+    simp only [forestOK]; exact inferInstance
+end
+
+instance (env : Env) (n : DNode) : Decidable (n.OK env) := DNode.decOK env n
+instance (env : Env) (ns : List DNode) : Decidable (forestOK env ns) := forestDecOK env ns
+
+mutual
+def DNode.decEmitOK (env : Env) : (n : DNode) → Decidable (n.EmitOK env)
+  | .line ln lead trail => by simp only [DNode.EmitOK]; exact inferInstance
+  | .block key cs lead => by
+    have := forestDecEmitOK env cs
+    simp only [DNode.EmitOK]; exact inferInstance
+  | .sect id key cs lead => by
+    have := forestDecEmitOK env cs
+    simp only [DNode.EmitOK]; exact inferInstance
+def forestDecEmitOK (env : Env) : (ns : List DNode) → Decidable (forestEmitOK env ns)
+  | [] => by simp only [forestEmitOK]; exact inferInstance
+  | n :: ns => by
+    have := DNode.decEmitOK env n
+    have := forestDecEmitOK env ns
+    simp only [forestEmitOK]; exact inferInstance
+end
+
+instance (env : Env) (n : DNode) : Decidable (n.EmitOK env) := DNode.decEmitOK env n
+instance (env : Env) (ns : List DNode) : Decidable (forestEmitOK env ns) := forestDecEmitOK env ns
+
 end Octave.D
